@@ -134,15 +134,28 @@ def run(ck):
         for vn, extra in variants.get(t, []):
             node = fill(t, N(t, dict({"css-class": "kk"}, **extra)))
             docs.append(("%s[%s]" % (t, vn), place(t, node)))
+    # the class may also reach the component through <mj-class name="p" css-class="kk"/> + mj-class="p"
+    for t in tags:
+        if t == "mj-wrapper":
+            continue
+        node = fill(t, N(t, {"mj-class": "p"}))
+        d = place(t, node)
+        d["children"].insert(0, N("mj-head", kids=[N("mj-attributes", kids=[N("mj-class", {"name": "p", "css-class": "kk"})])]))
+        docs.append(("%s[via-mj-class]" % t, d))
+    # rules may target the classes the components generate themselves
+    two = N("mjml", kids=[N("mj-body", kids=[N("mj-section", kids=[N("mj-column", kids=[N("mj-text", text="a")]), N("mj-column", kids=[N("mj-text", text="b")])])])])
+    docs.append(("built-in-class:mj-column-per-50", two))
     jobs = []
     for i, (t, d) in enumerate(docs):
+        c_ = css if not t.startswith("built-in-class") else ".mj-column-per-50 { color: red; font-size: 9px }"
         jobs.append({"id": 2 * i, "src": docgen.to_mjml(without_style(d))})
-        jobs.append({"id": 2 * i + 1, "src": docgen.to_mjml(with_style(d, css))})
+        jobs.append({"id": 2 * i + 1, "src": docgen.to_mjml(with_style(d, c_))})
     res2, dead2 = common.run_jobs(hb, "render", jobs)
     reqs = []
     for i, (t, d) in enumerate(docs):
         a, b = res2.get(2 * i), res2.get(2 * i + 1)
-        reqs.append(("inlinerelaxed", (css.encode(), body_of((a or {}).get("html", "")).encode(), body_of((b or {}).get("html", "")).encode())))
+        c_ = css if not t.startswith("built-in-class") else ".mj-column-per-50 { color: red; font-size: 9px }"
+        reqs.append(("inlinerelaxed", (c_.encode(), body_of((a or {}).get("html", "")).encode(), body_of((b or {}).get("html", "")).encode())))
     o2 = vlib.model_run(mr, reqs)
     for i, (t, d) in enumerate(docs):
         a, b = res2.get(2 * i), res2.get(2 * i + 1)
